@@ -132,6 +132,22 @@ pub fn divide_segment_n2_instance_body<S: Src>(_s: &mut S) {
     std::mem::forget((nr, l, r, queue));
 }
 
+/// C10 instance of the same corner in f32 (the clause of U-I3 "bumped by exactly one ulp", on concrete single-precision
+/// input): dividing (1,10)-(5,0) at (1,7) must place both new events at (nextafter(1), 7) -- one f32 ulp, not an f64 ulp.
+pub fn divide_segment_bump_f32_body<S: Src>(_s: &mut S) {
+    let (p, q, i): (Coord<f32>, Coord<f32>, Coord<f32>) = (Coord { x: 1.0, y: 10.0 }, Coord { x: 5.0, y: 0.0 }, Coord { x: 1.0, y: 7.0 });
+    let bump = Coord { x: i.x.nextafter(true), y: i.y };
+    register_points(&[w(p), w(q), w(i), w(bump)]);
+    let (l, r) = seg(1, p, q, true);
+    let mut queue: BinaryHeap<Rc<SweepEvent<f32>>> = BinaryHeap::new();
+    divide_segment(&l, i, &mut queue);
+    let nr = l.get_other_event().unwrap();
+    let nl = r.get_other_event().unwrap();
+    assert!(bump.x > i.x, "one ulp up is a different f32");
+    assert!(nr.point == bump && nl.point == bump, "C10/C16 (N2): in f32 the division point is bumped by exactly one f32 ulp");
+    std::mem::forget((nr, nl, l, r, queue));
+}
+
 /// Contract stub of `divide_segment` for callers' harnesses (U-I4): checks the precondition, produces a post-state
 /// that satisfies the postcondition proved in `divide_segment_contract_*`.
 pub static mut DIV_N: usize = 0;
@@ -197,6 +213,14 @@ mod proofs {
     #[kani::unwind(8)]
     fn divide_segment_n2_instance() {
         divide_segment_n2_instance_body(&mut KaniSrc);
+    }
+
+    #[kani::proof]
+    #[kani::stub(robust::orient2d, orient2d_contract)]
+    #[kani::stub(std::collections::BinaryHeap::push, heap_push_recorder)]
+    #[kani::unwind(8)]
+    fn divide_segment_bump_f32() {
+        divide_segment_bump_f32_body(&mut KaniSrc);
     }
 }
 
